@@ -4,9 +4,8 @@ C07 — trigger predicates of the recorded findings.  Each is a decidable functi
 hypotheses of the `_partial` theorems of EPV/Props/C07.lean and are printed by the driver
 (`trig=`) so that the harness can tag a disagreement with the finding it falls under.
 
-  F07            helpers.numeric_equal / Float.__eq__: `math.isclose(rel_tol=1e-7)` tolerance
-  F07-promotion  numeric operands of different types compared without (or with another) promotion
-  F07-untyped    xs:untypedAtomic against decimal / float / anyURI: conversion rules of §3.7.2 not followed
+  F07            Float.__eq__ / __ne__ (xs:float): `math.isclose(rel_tol=1e-7)` tolerance
+  F07-promotion  an integer / decimal facing an xs:float is promoted to binary64, not binary32
   F07-compat     XPath 1.0 / compatibility-mode rules (XPath 2.0 §3.5.2, XPath 1.0 §3.4) not followed
 -/
 import EPV.Spec.FOCompare
@@ -19,10 +18,9 @@ def isNode : Item → Bool | .node _ => true | _ => false
 /-- the two doubles are different values but `math.isclose` accepts them -/
 def tolClose (x y : D) : Bool := !D.eq x y && isclose x y
 
-/-- F07 on one pair.  `value` = value comparison (else general comparison) -/
-def trigTol (value : Bool) (op : Op) (a b : Atom) : Bool :=
+/-- F07 on one pair (value or general comparison): two xs:float values under eq / ne / = / != -/
+def trigTol (op : Op) (a b : Atom) : Bool :=
   match a, b with
-  | .dbl x, .dbl y => value && tolClose x y
   | .flt x, .flt y => op.isEqNe && tolClose x y
   | _, _ => false
 
@@ -31,52 +29,19 @@ def exactVal : Atom → Option Rat | .int v => some v | .dec q => some q | _ => 
 
 /-- F07-promotion: the pair mixes numeric types and the promotion the specification asks for
 (`castNum` to the higher of decimal < float < double) is not the one the code performs: an integer or
-decimal facing an xs:float is converted to binary64 (`get_double`), not binary32; and in a general
-comparison an untypedAtomic (cast to double) is compared *exactly* with an integer. -/
-def trigPromotion (value : Bool) (a b : Atom) : Bool :=
-  match a, b with
-  | .ua _, .int v | .int v, .ua _ => !value && decide (toD64 (v : Rat) ≠ .fin v)
-  | _, _ =>
-    match CmpSpec.numRank a, CmpSpec.numRank b with
-    | some i, some j =>
-      if i = j then false else
-      let k := if i < j then j else i
-      let lo := if i < j then a else b
-      match exactVal lo with
-      | some q => decide (CmpSpec.castNum k lo ≠ toD64 q)
-      | none => false
-    | _, _ => false
-
-/-- the specification's comparability table says XPTY0004 for the types of this pair -/
-def specIncomparable (m : Mode) (op : Op) (a b : Atom) : Bool :=
-  match CmpSpec.valueOp (CmpSpec.binOrdered m) op a b with
-  | .error .XPTY0004 => true
-  | _ => false
-
-def iterAccepts (op : Op) (a b : Atom) : Bool :=
-  match iterCheck op a b with | .ok _ => true | .error _ => false
-
-/-- F07-lenient: neither operand untyped, incomparable by the specification, not rejected by the
-isinstance tests of iter_comparison_data (the Python operator then answers, or raises TypeError) -/
-def trigLenient (m : Mode) (op : Op) (a b : Atom) : Bool :=
-  !isUA a && !isUA b && specIncomparable m op a b && iterAccepts op a b
+decimal facing an xs:float is converted to binary64 (`get_double`), not binary32. -/
+def trigPromotion (a b : Atom) : Bool :=
+  match CmpSpec.numRank a, CmpSpec.numRank b with
+  | some i, some j =>
+    if i = j then false else
+    let k := if i < j then j else i
+    let lo := if i < j then a else b
+    match exactVal lo with
+    | some q => decide (CmpSpec.castNum k lo ≠ toD64 q)
+    | none => false
+  | _, _ => false
 
 def isTemporal (a : Atom) : Bool := a.isDT || a.isDur
-
-/-- F07-untyped: an xs:anyURI left operand compares the raw untyped string (no white-space collapse) -/
-def trigUntyped (_op : Op) (a b : Atom) : Bool :=
-  match a, b with
-  | .uri _, .ua t => decide (strip t ≠ t)
-  | _, _ => false
-
-/-- F07-untyped, QName part: an xs:QName *left* operand compares the untyped string with its lexical
-`prefix:local` form instead of casting it; and the 2.0 parsers cast untypedAtomic to QName although
-XPath 2.0 does not allow that cast (XPTY0004) -/
-def trigUntypedQN (m : Mode) (a b : Atom) : Bool :=
-  match a, b with
-  | .qn .., .ua _ => true
-  | .ua _, .qn .. => decide (m ≠ .v31)
-  | _, _ => false
 
 /-! ### date/time payloads: validity of the timezone, calendar consistency (not findings) -/
 
@@ -139,9 +104,8 @@ def trigGeneral (m : Mode) (op : Op) (L Rr : List Item) : List String :=
   let r := Rr.map (atomize m)
   let ps := product l r
   let pairLevel := !m.compat || (m = .v2c && !op.isOrd)
-  (if ps.any (fun (a, b) => trigTol false op a b) then ["F07"] else []) ++
-  (if pairLevel && ps.any (fun (a, b) => trigPromotion false a b) then ["F07-promotion"] else []) ++
-  (if pairLevel && ps.any (fun (a, b) => trigUntyped op a b || trigUntypedQN m a b) then ["F07-untyped"] else []) ++
+  (if ps.any (fun (a, b) => trigTol op a b) then ["F07"] else []) ++
+  (if pairLevel && ps.any (fun (a, b) => trigPromotion a b) then ["F07-promotion"] else []) ++
   (if trigCompat m op l r (L.any isNode) (Rr.any isNode) then ["F07-compat"] else [])
 
 def castUAStr : Atom → Atom | .ua s => .str s | a => a
@@ -152,8 +116,8 @@ def trigValue (m : Mode) (op : Op) (L Rr : List Item) : List String :=
   | [x], [y] =>
     let a := atomize m x
     let b := atomize m y
-    (if trigTol true op a b then ["F07"] else []) ++
-    (if trigPromotion true a b then ["F07-promotion"] else [])
+    (if trigTol op a b then ["F07"] else []) ++
+    (if trigPromotion a b then ["F07-promotion"] else [])
   | _, _ => []
 
 end EPV.CmpFind
